@@ -93,7 +93,7 @@ func fromStruct(s *agglayertypes.Certificate) *nCert {
 	for _, ib := range s.ImportedBridgeExits {
 		n := nIBE{BE: structBE(ib.BridgeExit)}
 		if ib.GlobalIndex != nil {
-			n.GlobalIndex = globalIndex(ib.GlobalIndex.MainnetFlag, ib.GlobalIndex.RollupIndex, ib.GlobalIndex.LeafIndex)
+			n.GlobalIndex = canonGlobalIndex(ib.GlobalIndex.MainnetFlag, ib.GlobalIndex.RollupIndex, ib.GlobalIndex.LeafIndex)
 		}
 		switch cd := ib.ClaimData.(type) {
 		case *agglayertypes.ClaimFromMainnnet:
